@@ -16,8 +16,8 @@ ASSUMPTIONS = ["time items strictly increasing (unit / constant step d>0 / arbit
 OUTSIDE = ["more than n time steps (see bounds)", "IEEE rounding", "LAPACK internals", "scipy distribution kernels (symbolic tier uses a free table; linear tier uses their float output as exact rationals)"]
 BOUNDS = {
     "quick": dict(symbolic_tier="n in {3,4}, one extra dimension of length 2 (and none), grids unit/const/uneven, 4 stock classes",
-                  real_class_tier="n=3, the five shipped lifetime classes with symbolic scalar parameters (scipy kernels as uninterpreted functions), symbolic grid"),
-    "thorough": dict(symbolic_tier="n in {3,4,5,6}, extra dims (), (2,), (2,2)", real_class_tier="n in {3,4,5}, inflow_at start/middle/end and 3-point quadrature"),
+                  real_class_tier="n in {3,4}, the five shipped lifetime classes with symbolic scalar parameters (scipy kernels as uninterpreted functions), symbolic grid"),
+    "thorough": dict(symbolic_tier="n in 3..8, extra dims (), (2,), (2,2) (n>=6: up to (2,); n=8: none)", real_class_tier="n in 3..6, inflow_at start/middle/end and 3-point quadrature"),
 }
 OPTS = {"quick": dict(shadow_every=4, timeout_ms=20000), "thorough": dict(shadow_every=6, timeout_ms=120000)}
 KINDS = ["flow", "idsm", "sdsm_manual", "sdsm_lapack"]
@@ -32,13 +32,13 @@ LT_GRIDS = {"unit": lambda n: [2000 + i for i in range(n)], "const5": lambda n: 
 
 def configs(tier, seed):
     out = []
-    ns = [3, 4] if tier == "quick" else [3, 4, 5, 6]
+    ns = [3, 4] if tier == "quick" else [3, 4, 5, 6, 7, 8]
     extras = [{}, {"r": 2}] if tier == "quick" else [{}, {"r": 2}, {"r": 2, "p": 2}]
     for kind in KINDS:
         for grid in dsm.GRIDS:
             for n in ns:
                 for extra in extras:
-                    if n >= 6 and len(extra) > 1:
+                    if (n >= 6 and len(extra) > 1) or (n >= 8 and len(extra) > 0):
                         continue
                     ek = "x".join(f"{l}{k}" for l, k in extra.items()) or "-"
                     out.append(dict(h="conserve", op=kind, key=f"conserve/{kind}/grid={grid}/n={n}/extra={ek}", kind=kind, grid=grid, n=n, extra=extra))
@@ -53,7 +53,7 @@ def configs(tier, seed):
     for kind in ["idsm"]:
         for lt, prm in LT_PARAMS:
             for g in dsm.GRIDS:
-                for n in ([3] if tier == "quick" else [3, 4, 5]):
+                for n in ([3, 4] if tier == "quick" else [3, 4, 5, 6]):
                     for extra in ([{"r": 2}] if tier == "quick" else [{}, {"r": 2}]):
                         for inflow_at, npts in ([("middle", 1)] if tier == "quick" else [("start", 1), ("middle", 1), ("end", 1), ("middle", 3)]):
                             ek = "x".join(f"{l}{k}" for l, k in extra.items()) or "-"
